@@ -4,6 +4,19 @@ import WsModel.Handshake.Run
 namespace WsProofs.HsL
 open WsModel WsModel.Hs WsModel.Gen
 
+
+/-- the three headers `create_parts` sets have distinct names, so the header map prints them in
+insertion order, one line each -/
+theorem headerLines_base (acc : Bytes) :
+    headerLines ([srvRespConnection, srvRespUpgrade, (srvRespAcceptName, acc)] ++ []) =
+      headerLine (lowerAll srvRespConnection.1) srvRespConnection.2
+        ++ headerLine (lowerAll srvRespUpgrade.1) srvRespUpgrade.2
+        ++ headerLine (lowerAll srvRespAcceptName) acc := by
+  have h1 : (lowerAll srvRespConnection.1 == lowerAll srvRespUpgrade.1) = false := by decide
+  have h2 : (lowerAll srvRespConnection.1 == lowerAll srvRespAcceptName) = false := by decide
+  have h3 : (lowerAll srvRespUpgrade.1 == lowerAll srvRespAcceptName) = false := by decide
+  simp [headerLines, HMap.ofList, HMap.append, HMap.iter, h1, h2, h3]
+
 theorem toStr_eq_some {v s : Bytes} (h : toStr v = some s) : s = v := by
   unfold toStr at h
   by_cases c : (v.all fun b => b == 9 || (32 ≤ b && b < 127)) = true
